@@ -10,27 +10,30 @@ IoAll == {<<a, b, c>> : a \in Modes, b \in Modes, c \in Modes}
 Base  == [nargs |-> 1, nenv |-> 1, cwd |-> "none", uid |-> "unset", gid |-> "unset", pg |-> "unset",
           io |-> <<"inherit", "inherit", "inherit">>, pre |-> << >>, prog |-> "ok"]
 PreAll   == {<< >>, <<0>>, <<0, 0>>, <<13>>, <<0, 13>>, <<-1>>}
-PreQuick == {<< >>, <<0, 13>>, <<-1>>, <<0, 0>>}
+PreQuick == {<< >>, <<0, 13>>, <<-1>>}
+\* <<uid, gid>> settings: own ids, a foreign user, a foreign group, both (setgid then fails: EPERM)
+IdPairsQuick == {<<"unset", "unset">>, <<"own", "own">>, <<"other", "unset">>, <<"unset", "other">>, <<"other", "other">>}
+IdPairsFull  == IdPairsQuick \cup {<<"own", "unset">>, <<"other", "own">>}
 
 \* every stdio combination on the base command
 CfgsIo == {[Base EXCEPT !.io = x] : x \in IoAll}
 \* the other dimensions, with one mixed stdio table
 CfgsDimsQuick ==
-    {[nargs |-> a, nenv |-> n, cwd |-> w, uid |-> u, gid |-> u, pg |-> g, io |-> <<"null", "pipe", "raw">>,
+    {[nargs |-> a, nenv |-> n, cwd |-> w, uid |-> u[1], gid |-> u[2], pg |-> g, io |-> <<"null", "pipe", "raw">>,
       pre |-> p, prog |-> b] :
-        a \in {0, 2}, n \in {0, 2}, w \in {"none", "ok", "missing"}, u \in {"unset", "own"},
+        a \in {0, 2}, n \in {0, 2}, w \in {"none", "ok", "missing"}, u \in IdPairsQuick,
         g \in {"unset", "own"}, p \in PreQuick, b \in {"ok", "missing"}}
 CfgsDimsFull ==
-    [nargs : 0..2, nenv : 0..2, cwd : {"none", "ok", "missing"}, uid : {"unset", "own"},
-     gid : {"unset", "own"}, pg : {"unset", "own"},
-     io : {<<"null", "pipe", "raw">>, <<"inherit", "inherit", "inherit">>},
-     pre : PreAll, prog : {"ok", "missing"}]
+    {[nargs |-> a, nenv |-> n, cwd |-> w, uid |-> u[1], gid |-> u[2], pg |-> g, io |-> t, pre |-> p, prog |-> b] :
+        a \in {0, 2}, n \in 0..2, w \in {"none", "ok", "missing"}, u \in IdPairsFull, g \in {"unset", "own"},
+        t \in {<<"null", "pipe", "raw">>, <<"inherit", "inherit", "inherit">>}, p \in PreAll, b \in {"ok", "missing"}}
 CfgsQuick    == CfgsIo \cup CfgsDimsQuick
 CfgsThorough == CfgsIo \cup CfgsDimsFull
 CfgsTiny     == {Base, [Base EXCEPT !.io = <<"null", "pipe", "raw">>, !.cwd = "ok", !.uid = "own", !.gid = "own",
                                !.pg = "own", !.pre = <<0>>, !.nargs = 2, !.nenv = 2],
                  [Base EXCEPT !.cwd = "missing"], [Base EXCEPT !.pre = <<0, 13>>], [Base EXCEPT !.pre = <<-1>>],
-                 [Base EXCEPT !.prog = "missing"]}
+                 [Base EXCEPT !.prog = "missing"], [Base EXCEPT !.uid = "other", !.gid = "other"],
+                 [Base EXCEPT !.uid = "other"], [Base EXCEPT !.gid = "other"]}
 
 Fl(p, s, ks, es) == {[p |-> p, sys |-> s, k |-> k, err |-> e] : k \in ks, e \in es}
 \* one errno per call (quick); -3 = the read is forced to return 3 (short read)
